@@ -29,7 +29,9 @@ PROPERTY = 'C19'
 HEADER = 'The following test left new threads behind:'
 IDENT_RES = [re.compile(r'started (?:daemon )?(\d+)\)>'), re.compile(r'DummyThread (\d+),')]
 
-PATTERN_SETS = [[], ['ign'], ['ign-', 'other.*'], ['k.*p-1$', 'ign']]
+PATTERN_SETS = [[], ['ign'], ['ign-', 'other.*'], ['k.*p-1$', 'ign'],
+                # each pattern is matched on its own: an inline flag of one pattern says nothing about the others
+                ['(?i)IGN', 'KEEP'], ['ign', '(?i)XIGN-']]
 NAME_KINDS = ['keep', 'ign', 'xign', None]
 
 
